@@ -297,6 +297,12 @@ func theoryAxioms(roots []*Term) []*Term {
 				emit(Implies(Eq(a, emptyLit), Eq(t, b)))
 				emit(Implies(Eq(b, emptyLit), Eq(t, a)))
 				emit(Eq(TC.mk(KApp, declStr("slen", []Sort{SStr}, SInt), SInt, []*Term{t}, nil, nil), Add(SLen(a), SLen(b))))
+			case "strlt":
+				p, q := t.Args[0], t.Args[1]
+				rev := TC.mk(KApp, declStr("strlt", []Sort{SStr, SStr}, SBool), SBool, []*Term{q, p}, nil, nil)
+				emit(Not(And(t, rev)))
+				emit(Implies(Eq(p, q), Not(t)))
+				emit(Implies(Ne(p, q), Or(t, rev)))
 			case "shasprefix":
 				s, p := t.Args[0], t.Args[1]
 				emit(Eq(t, And(Le(SLen(p), SLen(s)), Eq(SSub(s, IntLit(0), SLen(p)), p))))
